@@ -25,7 +25,7 @@ def source(c):
     s, p, q, n, m = S(c["s"]), S(c["p"]), S(c["q"]), c["n"], c["m"]
     if f in ("length", "trim", "asciiUpper", "asciiLower", "stringChars", "codepoint", "isEmpty", "encodeUTF8", "base64",
              "escapeStringJson", "escapeStringPython", "escapeStringBash", "escapeStringDollars", "escapeStringXML",
-             "parseInt", "parseOctal", "parseHex", "base64Decode", "base64DecodeBytes", "parseJson"):
+             "parseInt", "parseOctal", "parseHex", "base64Decode", "base64DecodeBytes", "parseJson", "parseYaml"):
         return f"std.{f}({s})"
     if f in ("split", "startsWith", "endsWith", "stripChars", "lstripChars", "rstripChars", "equalsIgnoreCase"):
         return f"std.{f}({s}, {p})"
